@@ -22,7 +22,7 @@ for p in props:
             "replay_cmd_template": "./bin/raftlint -explain {path}",
             "engine": "raftlint",
             "level_claimed": {"category": "other", "text": c["level_text"], "design_ref": c.get("design_ref", "DESIGN.md §5 " + pid)},
-            "level_note": c["level_note"],
+            "level_note": c["level_note"] + " | " + claims.get("_common_note", ""),
             "technique": c["technique"],
         })
     else:
